@@ -136,6 +136,12 @@ class FormWorld:
 
     def py_hash(self, x):
         ip = self.ip
+        if self.hash_salt == "collide":
+            # the degenerate world: every hash collides.  Equality, dict and set semantics must not depend on
+            # hashes being different (they only make things fast).
+            if isinstance(x, Obj) and ip.obj_class(x) is not None and not ip.is_hashable_obj(x):
+                raise LiftRaise(f"TypeError: unhashable type: '{ip.obj_class(x).name}'")
+            return 0
         if isinstance(x, str):
             self.hash_log.append(x)
             return int.from_bytes(hashlib.sha256(f"{self.hash_salt}:{x}".encode()).digest()[:7], "big")
